@@ -285,5 +285,5 @@ theorem writeSeg_nonblank {sep : Char} (seg : Seg) (hwf : wfSeg false seg = true
   case search.search inv m attr term => exact ⟨'[', by simp [writeSeg], by decide⟩
   case keywordSearch.keyword inv kw p => exact ⟨'[', by simp [writeSeg], by decide⟩
   case collector.collector e op =>
-    simp only [Bool.false_or, Bool.and_eq_true, decide_eq_true_eq] at hwf
-    exact ⟨'(', by simp [writeSeg, hwf.1, CollOp.text], by decide⟩
+    simp only [Bool.false_or, decide_eq_true_eq] at hwf
+    exact ⟨'(', by simp [writeSeg, hwf, CollOp.text], by decide⟩
